@@ -3,12 +3,17 @@ From Coq Require Import String List Bool Arith.
 From Verif Require Import Base.Str Base.Run C16.Model C16.Spec C16.Classes.
 Import ListNotations.
 
-Definition case := (input * obs)%type.   (* abstract call, what was observed on the implementation *)
+Definition case := (call * obs)%type.   (* abstract call, what was observed on the implementation *)
 
+(* ss = where the five options of the Server entry come from (argument / None / not passed, IdP configuration);
+   None: every option passed as it stands.  With sources the flags sr .. sc only document what the harness takes
+   to be requested; model and spec compute their own reading (Model.gather, Spec.requested) *)
 Definition mk (en : entry) (sr sa ea eadv sc pefim : bool) (md : list (use * cert)) (ca cadv : option cert)
-              (subj : atom) (attrs : list atom) (leaves : list (bool * list atom))
+              (subj : atom) (attrs : list atom) (leaves : list (bool * list atom)) (ss : option srcs)
               (res : result) (bytes : list atom) (trials : list (trial * ident)) : case :=
-  (mkinput en sr sa ea eadv sc pefim md ca cadv subj attrs leaves, mkobs res bytes trials).
+  ((mkinput en sr sa ea eadv sc pefim md ca cadv subj attrs leaves, ss), mkobs res bytes trials).
+(* an option: how the argument was given, what the configuration says *)
+Definition osrc (a : argst) (c : option bool) : optsrc := mkopt a c.
 
 Definition sig_eqb (a b : sigst) : bool :=
   match a, b with Unsigned, Unsigned | Signed, Signed | Broken, Broken => true | _, _ => false end.
@@ -47,19 +52,20 @@ Definition ident_eqb (a b : ident) : bool :=
   end.
 
 Definition agrees (c : case) : bool :=
-  let (x, o) := c in
-  let m := model_obs x (map fst (o_trials o)) in
+  let (k, o) := c in
+  let m := model_obs (gather k) (map fst (o_trials o)) in
   result_eqb (o_res m) (o_res o)
   && same_atoms_b (o_bytes m) (o_bytes o)
   && list_eqb ident_eqb (map snd (o_trials m)) (map snd (o_trials o)).
 
-Definition holds (c : case) : bool := spec_b (fst c) (snd c).
+Definition holds (c : case) : bool := spec_call_b (fst c) (snd c).
 
 (* finding class of a failing case: decided by the clause that fails AND the input region, so that a failure of
    another kind inside a region is still reported.  1 and 2 are the repaired classes (status fixed: the driver reports
    them as VIOLATION with the failing input), 3 is open. *)
 Definition cls (c : case) : nat :=
-  let (x, o) := c in
+  let (k, o) := c in
+  let x := requested k in
   let e := effective x in
   if negb (nothing_more_b x o) then 0
   else if negb (conf_main_b x o) then 0
@@ -70,8 +76,9 @@ Definition cls (c : case) : nat :=
 Definition run := run_cases agrees holds cls.
 
 Definition explain (c : case) :=
-  let (x, o) := c in
-  let m := model_obs x (map fst (o_trials o)) in
-  (o_res m, o_bytes m, map snd (o_trials m),
+  let (k, o) := c in
+  let x := requested k in
+  let m := model_obs (gather k) (map fst (o_trials o)) in
+  ((sr x, sa x, ea x, eadv x, sc x), (let g := gather k in (sr g, sa g, ea g, eadv g, sc g)), o_res m, o_bytes m, map snd (o_trials m),
    (conf_main_b x o, conf_adv_b x o, live_b x o, recover_b x o, nothing_more_b x o),
    (region1 (effective x), region2 (effective x), region3 (effective x)), o_res (model_obs_v0 x [])).
